@@ -102,11 +102,6 @@ func (l Line3D) ClosestTimeOnLine(p vector3.Float64) float64 {
 }
 
 func (l Line3D) ClosestPointOnLine(p vector3.Float64) vector3.Float64 {
-	// A line who's points coincide has no heading to normalize
-	if l.p1 == l.p2 {
-		return l.p1
-	}
-
 	// Consider the line extending the segment, parameterized as v + t (w - v).
 	// We find projection of point p onto the line.
 	// It falls where t = [(p-v) . (w-v)] / |w-v|^2
@@ -115,6 +110,13 @@ func (l Line3D) ClosestPointOnLine(p vector3.Float64) vector3.Float64 {
 
 	heading := l.p2.Sub(l.p1)
 	magnigutdeMax := heading.Length()
+
+	// A line who's points coincide, or are too close for the length to be
+	// represented, has no heading to normalize
+	if magnigutdeMax == 0 {
+		return l.p1
+	}
+
 	heading = heading.Normalized()
 	lhs := p.Sub(l.p1)
 	t := lhs.Dot(heading) / magnigutdeMax
